@@ -159,7 +159,7 @@ structure Node where
   log : List Entry
   /-- `__commandsWaitingCommit`: log index ↦ [(term, callback id)] -/
   waiting : List (Nat × List (Nat × Nat))
-deriving Repr, Inhabited
+deriving DecidableEq, Repr, Inhabited
 
 inductive Ev where
   /-- user implementation `d` executed for the entry at `idx` -/
@@ -226,6 +226,32 @@ def applyLogEntries (n : Node) : Node × List Ev :=
   else if n.commit > n.lastApplied then
     applyBatch n (getEntries n.log (n.lastApplied + 1) (n.commit - n.lastApplied))
   else (n, [])
+
+/-- What can happen to a node between / at ticks, as far as the apply loop is concerned. -/
+inductive Op where
+  /-- `_onTick` reaches `__applyLogEntries` -/
+  | tick
+  /-- the replication core moved `__raftCommitIndex` -/
+  | setCommit (c : Nat)
+  /-- the replication core appended entries to `__raftLog` -/
+  | append (es : List Entry)
+  /-- a callback was registered in `__commandsWaitingCommit[idx]` -/
+  | subscribe (idx term cb : Nat)
+deriving Repr, Inhabited
+
+def addWaiting (w : List (Nat × List (Nat × Nat))) (idx : Nat) (sub : Nat × Nat) : List (Nat × List (Nat × Nat)) :=
+  if w.any (fun p => p.1 == idx) then w.map (fun p => if p.1 == idx then (p.1, p.2 ++ [sub]) else p)
+  else w ++ [(idx, [sub])]
+
+def step (n : Node) : Op → Node × List Ev
+  | .tick => applyLogEntries n
+  | .setCommit c => ({ n with commit := c }, [])
+  | .append es => ({ n with log := n.log ++ es }, [])
+  | .subscribe idx term cb => ({ n with waiting := addWaiting n.waiting idx (term, cb) }, [])
+
+def run (n : Node) : List Op → Node × List Ev
+  | [] => (n, [])
+  | o :: os => let (n', evs) := step n o; let (n'', evs') := run n' os; (n'', evs ++ evs')
 
 /-! ## `setCodeVersion` -/
 
